@@ -125,8 +125,8 @@ class C20(PropBase):
                 "are exactly group conflicts, --pretty without JSON and --brief with JSON only, and a rejected run renders nothing "
                 "(c20_rejections, c20_rejected_no_report); exit status is 0, 1 or 2 and nothing else, 0 iff every planned report "
                 "was written or a pipe broke, 1 with a diagnostic and no report for read/processing errors, io errors give 1 "
-                "(c20_exit_status, c20_success_iff, c20_failure_no_report, c20_failure_has_diag, c20_io_error_status, "
-                "c20_zero_means_done_or_pipe). The built minidump-stackwalk binary is run over the option matrix x inputs "
+                "(c20_exit_status, c20_success_iff, c20_failure_no_report, c20_failure_has_diag, c20_failure_diag_visible, "
+                "c20_io_error_status, c20_zero_means_done_or_pipe; known: --verbose=off silences the fatal diagnostic, F-C20b). The built minidump-stackwalk binary is run over the option matrix x inputs "
                 "(testdata, synthesized, mutated, truncated, missing, empty, directory) and compared byte for byte with the "
                 "library called in-process (print / print_brief / print_json / the dump printers) and with the model's "
                 "prediction; an independent oracle re-checks the property on exit status, stdout, stderr and the files.",
@@ -218,10 +218,13 @@ class C20(PropBase):
         add("help_markdown", mk("F:test.dmp", "n", "m"))
         add("help_markdown", mk("X:missing", "n", "m", 0, 1))
         # F. mutated dumps
-        nmut = 80 if not thorough else 1500
+        nmut = 200 if not thorough else 2500
         for i in range(nmut):
-            name = rng.choice(["test.dmp", "test.dmp", "linux-mini.dmp", "simple-crashpad.dmp", "invalid-parameter.dmp"])
-            inp = "M:%s:%d:%d" % (name, rng.below(1 << 30), rng.choice([1, 1, 2, 4, 8, 32]))
+            if rng.chance(1, 3):
+                inp = "MS:%d:%d:%d" % (rng.below(NSYNTH), rng.below(1 << 30), rng.choice([1, 1, 2, 4, 8]))
+            else:
+                name = rng.choice(["test.dmp", "test.dmp", "linux-mini.dmp", "simple-crashpad.dmp", "invalid-parameter.dmp"])
+                inp = "M:%s:%d:%d" % (name, rng.below(1 << 30), rng.choice([1, 1, 2, 4, 8, 32]))
             for _ in range(3):
                 modes = rng.choice(MODES)
                 brief = rng.below(2) if modes != "j" else 0
